@@ -303,7 +303,7 @@ PROPS["C19"] = dict(
                "(627c7bd alone is masked by 1e457f3).",
     code_names={1: "fault-free-handshake-needed-a-retransmission-timeout", 2: "endpoint-did-not-complete", 3: "completed-but-disagree", 4: "application-data-did-not-flow-both-ways",
                 5: "completed-later-than-the-retransmission-schedule-allows", 6: "application-data-before-completion", "hang": "hang"},
-    assumptions=["the network is the virtual-time network of the harness (zero latency, reliable once the scripted faults are used up); retransmission timeouts 100 ms doubling to 1600 ms; "
+    assumptions=["the network is the virtual-time network of the harness (zero latency, reliable once the scripted faults are used up); retransmission timeouts 100 ms doubling up to the maximum of 1000 ms (deliberately not a power-of-two multiple); "
                  "the application keeps reading (the dwell-period retransmissions happen inside Read): the client pings up to 8 times every 400 ms, the server leaves after 5 idle reads"],
     trusted=["harness/internal/tk/vnet.go (virtual-time network and its event log)", "the record classifier of the harness (cmd/hx/c19.go c19Records)"],
 )
